@@ -19,7 +19,7 @@ def known_key(job, tr, clause):
 
 def jobs_for(tier, rng, nd):
     jobs = []
-    n = 25 if tier == "quick" else 80
+    n = (25 if tier == "quick" else 80) if nd < 10 else 5
     for k in range(n):
         kind = ["VI", "PI", "RVI", "PVI", "SAVI"][k % 5]
         if kind == "RVI":
@@ -136,7 +136,7 @@ def run(tier):
     res = C.run_tlc("Batching", "BatchingSmall.cfg")
     C.tlc_must_be_clean(res, "Batching")
     rep.add_tlc("Batching (small box; the full box is C18)", res)
-    devs = [1, 2, 3] if tier == "quick" else [1, 2, 3, 4, 8]
+    devs = [1, 2, 3, 12] if tier == "quick" else [1, 2, 3, 4, 8, 12]      # 12: two-digit device ids
     allj, allt = [], []
     import concurrent.futures as cf
     with cf.ThreadPoolExecutor(len(devs)) as ex:
